@@ -388,6 +388,7 @@ pub fn property() -> Property {
                 signature: no_signature,
                 essential: &["partial_progress", "full", "double_width_cells", "huge_len", "two_chars", "wide_bar", "rest_does_not_fit", "odd_remainder"],
                 workers: w,
+                decode: None,
             }),
         ],
     }
